@@ -300,7 +300,7 @@ R("c16-phases-domain-from-last-source", S, '''            else:
 FIX_REVERT_FIRES = {
     "F1": ["C03", "C01", "C02"], "F2": ["C11"], "F3": ["C12"], "F4": ["C17"], "F5": ["C15"], "F6": ["C14"],
     "F7": ["C16"], "F8": ["C07", "C16"], "F9": ["C05", "C08", "C01"], "F10": ["C08"], "F11": ["C02"],
-    "F12": ["C15"], "F13": ["C14"], "F14": ["C16"], "F15": ["C16"], "F16": ["C09"], "F17": ["C14"], "F18": ["C03"], "F19": ["C03"], "F20": ["C10"], "F21": ["C18"], "F22": ["C13"],
+    "F12": ["C15"], "F13": ["C14"], "F14": ["C16"], "F15": ["C16"], "F16": ["C09"], "F17": ["C14"], "F18": ["C03"], "F19": ["C03"], "F20": ["C10"], "F21": ["C18"], "F22": ["C13"], "F23": ["C04"],
 }
 
 
